@@ -5,22 +5,31 @@ Lifting of the per-side lemmas to the whole flowsheet (`World`).
 namespace ThermoVerif.Network
 
 @[simp] theorem get_next (w : World) (k : Which) : (w.get k).next = w.nS := by cases k <;> rfl
-@[simp] theorem get_real (w : World) (k : Which) : (w.get k).real = w.real := by cases k <;> rfl
 @[simp] theorem get_pre (w : World) (k : Which) : (w.get k).pre = w.pre := by cases k <;> rfl
 @[simp] theorem get_sd (w : World) (k : Which) : (w.get k).sd = w.side k := by cases k <;> rfl
 
-/-- Both sides satisfy the per-side invariant. -/
-def GoodS (w : World) : Prop := SInv w.nU (w.get .i) ∧ SInv w.nU (w.get .o)
+/-- Both sides satisfy the per-side invariant for every object (streams and placeholders), and
+ids that are not allocated yet are not streams. -/
+structure GoodS (w : World) : Prop where
+  ins : SInv w.nU All (w.get .i)
+  outs : SInv w.nU All (w.get .o)
+  nreal : ∀ s, w.nS ≤ s → w.real s = false
+
+theorem GoodS.side {w : World} (h : GoodS w) (k : Which) : SInv w.nU All (w.get k) := by
+  cases k; exact h.ins; exact h.outs
 
 structure WExt (w w' : World) : Prop where
   pre : w'.pre = true → w.pre = true
   nS : w.nS ≤ w'.nS
   nU : w.nU ≤ w'.nU
+  /-- an object never changes its kind: a placeholder stays a placeholder, a stream a stream -/
+  real_old : ∀ s, s < w.nS → w'.real s = w.real s
 
-theorem WExt.refl (w : World) : WExt w w := ⟨id, Nat.le_refl _, Nat.le_refl _⟩
+theorem WExt.refl (w : World) : WExt w w := ⟨id, Nat.le_refl _, Nat.le_refl _, fun _ _ => rfl⟩
 
 theorem WExt.trans {a b c : World} (h1 : WExt a b) (h2 : WExt b c) : WExt a c :=
-  ⟨fun h => h1.pre (h2.pre h), Nat.le_trans h1.nS h2.nS, Nat.le_trans h1.nU h2.nU⟩
+  ⟨fun h => h1.pre (h2.pre h), Nat.le_trans h1.nS h2.nS, Nat.le_trans h1.nU h2.nU,
+   fun s hs => (h2.real_old s (Nat.lt_of_lt_of_le hs h1.nS)).trans (h1.real_old s hs)⟩
 
 structure WStep (A : Prop) (w w' : World) : Prop where
   ext : WExt w w'
@@ -37,41 +46,33 @@ theorem WStep.trans {A B C : Prop} {a b c : World} (h1 : WStep A a b) (h2 : WSte
     have hb := h1.inv (h2.ext.pre hp) hi (hA hc hi)
     h2.inv hp hb (hB hc hi hb)⟩
 
-/-- The counter and the set of real streams may grow without disturbing a side. -/
-theorem SInv.grow {nU nU' : Nat} {sd : Side} {n n' : Nat} {r r' : Nat → Bool} {p p' : Bool}
-    (h : SInv nU ⟨sd, n, r, p⟩) (hn : n ≤ n') (hU : nU ≤ nU')
-    (hr : ∀ s, s < n → r' s = r s) (hr' : ∀ s, n' ≤ s → r' s = false) :
-    SInv nU' ⟨sd, n', r', p'⟩ := by
-  refine ⟨fun u t ht => ?_, h.fx, ?_⟩
-  · by_cases htn : t < n
-    · exact h.cnt u t (by show r t = true; rw [← hr t htn]; exact ht)
-    · have h1 := h.sc.loc_none t (by simp; omega)
-      have h2 : t ∉ sd.lst u := fun hm => htn (h.sc.lst_lt u t hm)
-      simp only at h1 ⊢
-      rw [h1, List.count_eq_zero.mpr h2]; simp
-  · constructor
-    · intro u s hs; exact Nat.lt_of_lt_of_le (h.sc.lst_lt u s hs) hn
-    · intro s hs; exact h.sc.loc_none s (Nat.le_trans hn hs)
-    · exact hr'
-    · intro u hu; exact h.sc.lst_nil u (Nat.le_trans hU hu)
-    · intro u hu; exact h.sc.fixed_false u (Nat.le_trans hU hu)
-    · intro s u hs; exact Nat.lt_of_lt_of_le (h.sc.loc_lt s u hs) hU
+/-- The allocation counter (and the number of units) may grow without disturbing a side. -/
+theorem SInv.grow {nU nU' : Nat} {sd : Side} {n n' : Nat} {p p' : Bool}
+    (h : SInv nU All ⟨sd, n, p⟩) (hn : n ≤ n') (hU : nU ≤ nU') :
+    SInv nU' All ⟨sd, n', p'⟩ := by
+  refine ⟨fun u t ht => h.cnt u t ht, h.fx, ?_⟩
+  constructor
+  · intro u s hs; exact Nat.lt_of_lt_of_le (h.sc.lst_lt u s hs) hn
+  · intro s hs; exact h.sc.loc_none s (Nat.le_trans hn hs)
+  · intro u hu; exact h.sc.lst_nil u (Nat.le_trans hU hu)
+  · intro u hu; exact h.sc.fixed_false u (Nat.le_trans hU hu)
+  · intro s u hs; exact Nat.lt_of_lt_of_le (h.sc.loc_lt s u hs) hU
 
 theorem put_good {A : Prop} {w : World} {k : Which} {sw' : SW} (h : Step w.nU A (w.get k) sw') :
     WStep A w (w.put k sw') := by
-  have hreal : sw'.real = w.real := by have := h.ext.real; cases k <;> exact this
   have hnext : w.nS ≤ sw'.next := by have := h.ext.next; cases k <;> exact this
-  refine ⟨⟨fun hp => ?_, ?_, ?_⟩, fun hp hG hA => ?_⟩
+  refine ⟨⟨fun hp => ?_, ?_, ?_, ?_⟩, fun hp hG hA => ?_⟩
   · have := h.ext.pre (by cases k <;> exact hp)
     cases k <;> exact this
   · cases k <;> exact hnext
   · cases k <;> exact Nat.le_refl _
-  · have hI := h.inv (by cases k <;> exact hp) (by cases k; exact hG.1; exact hG.2) hA
-    have hnr : ∀ s, sw'.next ≤ s → w.real s = false := by
-      intro s hs; rw [← hreal]; exact hI.sc.not_real s hs
+  · intro s _; cases k <;> rfl
+  · have hI := h.inv (by cases k <;> exact hp) (hG.side k) hA
     cases k
-    · exact ⟨hI.of_eq rfl rfl hreal.symm, hG.2.grow hnext (Nat.le_refl _) (fun _ _ => rfl) hnr⟩
-    · exact ⟨hG.1.grow hnext (Nat.le_refl _) (fun _ _ => rfl) hnr, hI.of_eq rfl rfl hreal.symm⟩
+    · exact ⟨hI.of_eq rfl rfl, hG.outs.grow hnext (Nat.le_refl _),
+        fun s hs => hG.nreal s (Nat.le_trans hnext hs)⟩
+    · exact ⟨hG.ins.grow hnext (Nat.le_refl _), hI.of_eq rfl rfl,
+        fun s hs => hG.nreal s (Nat.le_trans hnext hs)⟩
 
 theorem on_wstep {A : Prop} {w w' : World} {k : Which} {f : SW → Except Err SW}
     (hf : ∀ sw', f (w.get k) = .ok sw' → Step w.nU A (w.get k) sw') (h : w.on k f = .ok w') :
@@ -83,10 +84,6 @@ theorem on_wstep {A : Prop} {w w' : World} {k : Which} {f : SW → Except Err SW
 
 /-! ## Small composite list operations -/
 
-theorem setNone_step {nU : Nat} {w w' : SW} {u i : Nat}
-    (h : (w.newMissing u).1.setStream u i (w.newMissing u).2 = .ok w') : Step nU (u < nU) w w' :=
-  ((newMissing_step w u).trans (setStream_step h)).weaken (fun hu => ⟨hu, by simp, hu⟩)
-
 theorem replaceNone_step {nU : Nat} {w w' : SW} {u s : Nat}
     (h : (match (w.sd.lst u).idxOf? s with
       | none => Except.error Err.valueError
@@ -96,8 +93,8 @@ theorem replaceNone_step {nU : Nat} {w w' : SW} {u s : Nat}
   · cases h
   · exact setNone_step h
 
-theorem setNones_step {nU : Nat} {w w' : SW} {u : Nat} {rs : List PortRef}
-    (h : w.setNones u rs = .ok w') : Step nU (u < nU) w w' := by
+theorem setNones_step {nU : Nat} {real : Nat → Bool} {w w' : SW} {u : Nat} {rs : List PortRef}
+    (h : SW.setNones real w u rs = .ok w') : Step nU (u < nU) w w' := by
   induction rs generalizing w with
   | nil => cases h; exact ⟨Ext.refl _, fun _ hI _ => hI⟩
   | cons r rs ih =>
@@ -109,10 +106,10 @@ theorem setNones_step {nU : Nat} {w w' : SW} {u : Nat} {rs : List PortRef}
 /-! ## Scope facts read off `GoodS` -/
 
 theorem GoodS.ins_lt {w : World} (h : GoodS w) {u s : Nat} (hs : s ∈ w.ins.lst u) : s < w.nS :=
-  h.1.sc.lst_lt u s hs
+  h.ins.sc.lst_lt u s hs
 
 theorem GoodS.outs_lt {w : World} (h : GoodS w) {u s : Nat} (hs : s ∈ w.outs.lst u) : s < w.nS :=
-  h.2.sc.lst_lt u s hs
+  h.outs.sc.lst_lt u s hs
 
 theorem GoodS.side_lt {w : World} (h : GoodS w) {k : Which} {u s : Nat}
     (hs : s ∈ (w.side k).lst u) : s < w.nS := by
@@ -121,10 +118,10 @@ theorem GoodS.side_lt {w : World} (h : GoodS w) {k : Which} {u s : Nat}
   · exact h.outs_lt hs
 
 theorem GoodS.ins_loc_lt {w : World} (h : GoodS w) {s v : Nat} (hs : w.ins.loc s = some v) :
-    v < w.nU := h.1.sc.loc_lt s v hs
+    v < w.nU := h.ins.sc.loc_lt s v hs
 
 theorem GoodS.outs_loc_lt {w : World} (h : GoodS w) {s v : Nat} (hs : w.outs.loc s = some v) :
-    v < w.nU := h.2.sc.loc_lt s v hs
+    v < w.nU := h.outs.sc.loc_lt s v hs
 
 theorem items_map_some {l : List Nat} {n : Nat} (h : ∀ s ∈ l, s < n) :
     ∀ s, some s ∈ l.map some → s < n := by
@@ -136,15 +133,15 @@ theorem items_map_some {l : List Nat} {n : Nat} (h : ∀ s ∈ l, s < n) :
 /-! ## World-level operations -/
 
 theorem newStream_wstep (w : World) : WStep True w w.newStream.1 := by
-  refine ⟨⟨id, Nat.le_succ _, Nat.le_refl _⟩, fun _ hG _ => ?_⟩
-  have hr : ∀ s, s < w.nS → (if s = w.nS then true else w.real s) = w.real s := by
-    intro s hs; simp; omega
-  have hr' : ∀ s, w.nS + 1 ≤ s → (if s = w.nS then true else w.real s) = false := by
-    intro s hs
-    have := hG.1.sc.not_real s (by show w.nS ≤ s; omega)
+  refine ⟨⟨id, Nat.le_succ _, Nat.le_refl _, fun s hs => by
     have : s ≠ w.nS := by omega
-    simp [*]; assumption
-  exact ⟨hG.1.grow (Nat.le_succ _) (Nat.le_refl _) hr hr', hG.2.grow (Nat.le_succ _) (Nat.le_refl _) hr hr'⟩
+    simp [World.newStream, this]⟩, fun _ hG _ => ?_⟩
+  refine ⟨hG.ins.grow (Nat.le_succ _) (Nat.le_refl _), hG.outs.grow (Nat.le_succ _) (Nat.le_refl _), ?_⟩
+  intro s hs
+  have h1 : w.nS + 1 ≤ s := hs
+  have := hG.nreal s (by omega)
+  have h2 : s ≠ w.nS := by omega
+  simp only [World.newStream, h2, if_false]; exact this
 
 theorem disconnectStream_wstep {w w' : World} {s : Nat} (h : w.disconnectStream s = .ok w') :
     WStep True w w' := by
@@ -232,7 +229,9 @@ theorem insertUnit_wstep {w w' : World} {u s : Nat} {i o : Option PortRef}
       · exact (on_wstep (fun _ => append_step) hx).weaken (fun hc _ => ⟨by simpa using hc.1, hc.2.1⟩)
     · split at hx
       · cases hx
-      · exact (hrep _ _ _ _ _ _ hx).weaken (fun hc hG => ⟨hc.2.2.2 _ rfl, hc.2.2.1⟩)
+      · split at hx
+        · cases hx
+        · exact (hrep _ _ _ _ _ _ hx).weaken (fun hc hG => ⟨hc.2.2.2 _ rfl, hc.2.2.1⟩)
     · split at hx
       · rename_i a ha
         exact (hrep _ _ _ _ _ _ hx).weaken (fun hc hG => ⟨hG.outs_lt (getElem?_mem' ha), hc.2.2.1⟩)
@@ -265,9 +264,11 @@ theorem insertUnit_wstep {w w' : World} {u s : Nat} {i o : Option PortRef}
         (fun hc _ => ⟨by simpa using hc.1, hc.2.1⟩) h
   · split at h
     · cases h
-    · obtain ⟨w1, h1, h⟩ := bind_ok.mp h
-      exact fin w1 false _ (hrep _ _ _ _ _ _ h1)
-        (fun hc hG => ⟨hc.2.2.2 _ rfl, fun x hx => hG.ins_loc_lt hx⟩) h
+    · split at h
+      · cases h
+      · obtain ⟨w1, h1, h⟩ := bind_ok.mp h
+        exact fin w1 false _ (hrep _ _ _ _ _ _ h1)
+          (fun hc hG => ⟨hc.2.2.2 _ rfl, fun x hx => hG.ins_loc_lt hx⟩) h
   · split at h
     · rename_i o1 ho1
       obtain ⟨w1, h1, h⟩ := bind_ok.mp h
